@@ -261,7 +261,7 @@ class Array:
 
     # ---- commands
     # --test-skip-multi-scan: the data disks are scanned one after the other (with parallel scan threads the result of the
-    # copy detection can depend on thread timing: finding F10); C13 exercises the parallel scan on purpose
+    # copy detection can depend on thread timing: finding F11); C13 exercises the parallel scan on purpose
     BASE_FLAGS = ["--test-skip-device", "--test-skip-self", "--test-force-order-alpha", "--test-skip-multi-scan", "--no-warnings",
                   "-q", "-q", "-q"]
 
